@@ -1,2 +1,52 @@
-(** C08 — statements only; see Proofs/. *)
-From RRSS Require Import Base.Outcome.
+(** C08 — Input and output happen once each, in program order, and I/O faults are errors.
+    Statements only; proofs in Proofs/InterpLaws.v and Proofs/InterpInv.v. *)
+From Coq Require Import List ZArith NArith Bool.
+From RRSS Require Import Base.Outcome Base.Chars Base.F64 Exec.Val Exec.Ops Front.Ast Exec.Env Exec.Interp.
+From RRSS Require Import Proofs.InterpInv Proofs.InterpLaws.
+Import ListNotations.
+
+(** each say writes exactly one line: the text and a line feed *)
+Theorem C08_say_writes_one_line :
+  forall txt c,
+  (match out_budget c with None => True | Some b => (len (utf8_encode txt ++ [10%N]) <= b)%N end) ->
+  exists c', fst (chan_output txt c) = Ok c' /\ out_bytes c' = out_bytes c ++ utf8_encode txt ++ [10%N] /\
+             in_rest c' = in_rest c /\ in_pos c' = in_pos c.
+Proof. exact say_writes_one_line. Qed.
+
+(** if the writer fails inside a line: exactly the bytes it accepted are there (a prefix of the
+    line), the statement is an I/O error, and the writer accepts nothing any more *)
+Theorem C08_say_fault :
+  forall txt c b, out_budget c = Some b -> (b < len (utf8_encode txt ++ [10%N]))%N ->
+  exists cf, chan_output txt c = (Err (IOError write_fault_msg), cf) /\
+             out_bytes cf = out_bytes c ++ firstn (N.to_nat b) (utf8_encode txt ++ [10%N]) /\
+             out_budget cf = Some 0%N.
+Proof. exact say_fault. Qed.
+
+Theorem C08_say_after_fault :
+  forall txt c, out_budget c = Some 0%N ->
+  exists cf, chan_output txt c = (Err (IOError write_fault_msg), cf) /\ out_bytes cf = out_bytes c.
+Proof. exact say_after_fault. Qed.
+
+(** each listen consumes exactly one input line, delivered without its terminator (the rest of the
+    input, possibly empty, at end of input), and does not touch the output *)
+Theorem C08_listen_consumes_one_line :
+  forall c ln c', chan_input c = Ok (ln, c') ->
+  (in_rest c = ln ++ [10%N] ++ in_rest c' \/ (in_rest c = ln /\ in_rest c' = [])) /\
+  ~ In 10%N ln /\ out_bytes c' = out_bytes c /\ out_budget c' = out_budget c /\ in_fault c' = in_fault c.
+Proof. exact listen_consumes_one_line. Qed.
+
+(** whatever the program does and wherever a stream fails: the bytes accepted by the writer only
+    ever grow — everything written before a fault (or any runtime error) is intact, and nothing panics *)
+Theorem C08_output_only_grows :
+  forall prof fuel s xs e, wf e -> prex xs ->
+  match exec_stmt prof fuel s xs e with
+  | XOk _ e' | XErr _ e' => prefix_of (outp e) (outp e')
+  | _ => True
+  end.
+Proof. exact output_preserved_stmt. Qed.
+
+Theorem C08_no_crash_under_faults :
+  forall prof fuel p c, match exec_program prof fuel p c with XPanic _ | XUB _ => False | _ => True end.
+Proof. exact exec_no_crash. Qed.
+
+Print Assumptions C08_listen_consumes_one_line.
